@@ -106,4 +106,11 @@ def dispatcher (m : Nat) (oneHot : Bool) : Machine DispIn DispState DispOut wher
                 { valid := i.master.valid, last := i.master.last, ready := dispReady m oneHot s i }
     { first := st.first, selOngoing := if s.first then i.sel else s.selOngoing }
 
+/-- `Dispatcher(master, [slave])` without `one_hot`: the constructor does not build the selector logic at all,
+    it is `master.connect(slave)` (and `sel` is an unused signal). -/
+def dispatcherConnect : Machine DispIn DispState DispOut where
+  init := { first := true, selOngoing := 0 }
+  out _ i := { ready := i.readys.getD 0 false, slaves := [i.master], sel := 0 }
+  next s _ := s
+
 end Litex.Packet
